@@ -29,12 +29,12 @@
     (convert to int32, keep the low 16 bits) = `i16`.
   No longer undefined (repository fixes followed by this model):
   * the per-frame step `trunc(delta*256)` of a pitch node is range-checked as a `double` before
-    it is narrowed to `int16_t` (87e2b57): outside -32768..32767 `add_pitch_node` throws
+    it is narrowed to `int16_t` (f788cbf): outside -32768..32767 `add_pitch_node` throws
     InputError (`PErr.tooSteep`), in both forms and under `noextpitch`, before the
     `invalid_argument` test and before any `push_back` of the iteration; `chunkDelta` is therefore
     the un-narrowed integer and every stored step is exactly it (or its signed-byte cap under
     `noextpitch`);
-  * `add_ins_psg` throws InputError when the loop position does not fit its byte (ba9074f):
+  * `add_ins_psg` throws InputError when the loop position does not fit its byte (ff36345):
     `psgEnd`; `psgFinish` (the two end commands) is only reached with `loopPos ≤ 255`;
   * `add_instrument` on an empty tag (`@1` with no type) is an InputError (696884e);
   * `add_ins_fm_2op` only accepts a base whose `ins_type` is `INS_FM` (45b84a6) — the base entry
@@ -58,7 +58,7 @@
   `strtod` beyond `[-]digits[.digits]` (no exponent / hex / inf / nan): a pitch envelope with a
   node or vibrato token that holds one of the letters e, x, i, n (any case) is answered
   `Err.unsupported` as a whole (`outsideStrtod`; conservative: the real `strtod` would read
-  `1e9`, `0x10`, `-inf`, `-nan` there — since 87e2b57 an infinite or NaN step is an InputError,
+  `1e9`, `0x10`, `-inf`, `-nan` there — since f788cbf an infinite or NaN step is an InputError,
   before it was an undefined conversion).
 -/
 import Ctrmml.Generated.Tables
@@ -489,7 +489,7 @@ def psgFinish (st : PsgSt) : NBytes :=
   if st.loopPos == -1 then st.env ++ [0x00] else st.env ++ [0x02, u8 st.loopPos]
 
 /-- the end of `add_ins_psg`: in the loop branch of the end command the loop position must fit
-its byte (`if(loop_pos > 255) throw InputError`, ba9074f) -/
+its byte (`if(loop_pos > 255) throw InputError`, ff36345) -/
 def psgEnd (id : Nat) (st : PsgSt) : Except Err NBytes :=
   if st.loopPos > (Tables.mdsdrv_psg_loop_max : Int) then
     .error (.input (Tables.mdsdrv_msg_psg_loop.1 ++ toString id ++ Tables.mdsdrv_msg_psg_loop.2))
